@@ -39,6 +39,27 @@ Proof.
   - split; [lia|]. replace (u - 2 ^ n) with (u + (-1) * 2 ^ n) by ring. rewrite Z.mod_add by lia. apply Z.mod_small. lia.
 Qed.
 
+(* signed decoding inverts the two's complement encoding: every integer of the n-bit signed range
+   is recovered from its n-bit pattern, so the decoding is a bijection pattern <-> value *)
+Lemma signed_of_inverse n x : 1 <= n -> - 2 ^ (n - 1) <= x < 2 ^ (n - 1) ->
+  0 <= x mod 2 ^ n < 2 ^ n /\ signed_of n (x mod 2 ^ n) = x /\ twos_complement (x mod 2 ^ n) n = x.
+Proof.
+  intros Hn Hx.
+  assert (E : 2 ^ n = 2 * 2 ^ (n - 1)) by (rewrite <- Z.pow_succ_r by lia; f_equal; lia).
+  assert (P : 0 < 2 ^ (n - 1)) by (apply Z.pow_pos_nonneg; lia).
+  assert (R : 0 <= x mod 2 ^ n < 2 ^ n) by (apply Z.mod_pos_bound; lia).
+  split; [exact R|].
+  assert (S : signed_of n (x mod 2 ^ n) = x).
+  { unfold signed_of. destruct (Z_lt_le_dec x 0) as [Neg|Pos].
+    - assert (M : x mod 2 ^ n = x + 2 ^ n).
+      { replace x with ((x + 2 ^ n) + (-1) * 2 ^ n) at 1 by ring. rewrite Z.mod_add by lia. apply Z.mod_small. lia. }
+      rewrite M. destruct (Z.ltb_spec (x + 2 ^ n) (2 ^ (n - 1))); lia.
+    - rewrite Z.mod_small by lia. destruct (Z.ltb_spec x (2 ^ (n - 1))); lia. }
+  split; [exact S|]. rewrite twos_complement_spec by assumption. exact S.
+Qed.
+Example signed_of_inverse_example : signed_of 12 ((-5) mod 2 ^ 12) = -5 /\ (-5) mod 2 ^ 12 = 4091.
+Proof. vm_compute. split; reflexivity. Qed.
+
 Section Field.
 Variables (B : list Z) (p n : Z) (env : env).
 Hypothesis Hwf : wf B.
